@@ -22,8 +22,8 @@ def _events(f, p, nn, nev):
     evs = []
     for _ in range(nev):
         t = f[p]; p += 1
-        if t == "R":
-            evs.append("EvRegister %s %s" % (coq_bytes(f[p]), coq_bytes(f[p + 1]))); p += 2
+        if t in ("R", "Q"):
+            evs.append("EvRegister %s %s %s" % (coq_bytes(f[p]), coq_bytes(f[p + 1]), "true" if t == "R" else "false")); p += 2
         elif t == "B":
             k, path, meth = f[p:p + 3]; p += 3
             o, p = _obs(f, p, nn)
@@ -83,7 +83,9 @@ CFG = dict(
     coq_sample={"quick": 25, "thorough": 120},
     rule=("one evaluation = one request served by a real Mux inside a history and compared (a) in Go with the same request on a FRESH Mux "
           "with the routes registered at that time and (b) by the extracted specification/model replay of the whole history; "
-          "histories: 1-40 operations from one goroutine (registrations between requests incl. HandleNoRoute/HandleRelay again, routes with "
+          "histories: 1-40 operations from one goroutine (registrations between requests incl. HandleNoRoute/HandleRelay again and "
+          "registrations that Handle REJECTS - repeated/empty :name under the prefix of earlier routes, unknown method, duplicates - with "
+          "the harness recovering and going on, handlers that REPLACE Store.W (wrapper with status 201) or Store.P (copy) and leave them, routes with "
           "0-3 params and '*' whose names are case variants / prefixes / extensions of each other {a,A,ab,id,ID,b}, matched / unmatched / "
           "half-matched URLs, '' and '/', handlers that call WriteHeader and/or Flush, return, panic with Logger.Relay recovering, or "
           "panic through a non-recovering relay so that the panic leaves ServeHTTP), histories with 1-3 requests held in flight by channels "
@@ -102,7 +104,11 @@ CFG = dict(
     assumptions=["registrations (Handle / HandleRelay / HandleNoRoute) and requests do not overlap in time: ServeHTTP walks the trie without "
                  "mux.mu, so registering while requests are served is a data race in the code; the property quantifies over routes "
                  "registered before or after earlier requests, not during (model: LRegister is enabled only with no request in flight)",
-                 "a rejected registration (Handle panics) ends the history (see C04: partially created trie nodes)",
+                 "a REJECTED registration is part of a history: Handle panics, the caller recovers, the trie keeps the nodes created "
+                 "before the error (model: handle_attempt; specification: ghost candidates of Lib/RouteSpec.v match_spec_g, validated "
+                 "against the real Mux on every run, proved equal to match_spec when nothing was rejected); isolation is then stated "
+                 "against a fresh Mux with the SAME registration attempts (C05_request_isolation), and against the router "
+                 "specification when all were accepted (C05_request_isolation_accepted)",
                  "ids are unique until the 64-bit counter wraps (2^64 requests per Mux); that the counter of the source at hand IS 64 bits "
                  "wide and rendered untruncated is a static obligation checked on every run (gen/c05counter + Lib/CounterFacts.v), not an assumption",
                  "a handler does not keep the *Store (or the string returned by GetID, which aliases the Store's buffer) after it returns",
@@ -114,7 +120,8 @@ CFG["manifest"] = dict(
     text=("Proof: for every history of a Mux - registrations, requests that overlap arbitrarily, any choice of pooled or new Store by "
           "sync.Pool.Get, handlers that set a status, return, panic and are recovered by the relay, or panic out of ServeHTTP (Store "
           "dropped), the pool forgetting Stores - every request in flight reads through its Store exactly what it would read on a fresh "
-          "Mux with the routes registered so far (C05_request_isolation), nothing panics (C05_no_panic), W.Status is 0 at entry "
+          "Mux with the same registration attempts, rejected ones included (C05_request_isolation; with the router specification's answer "
+          "and no lookup panic when all were accepted, C05_request_isolation_accepted), nothing panics (C05_no_panic), W.Status is 0 at entry "
           "(C05_entry_state), other requests' steps never change its Store and its own WriteHeader changes the status only "
           "(C05_unaffected_by_others, C05_own_write_header), ids are prefix+base36(ticket) with strictly increasing tickets, hence "
           "pairwise distinct below 2^64 (C05_ids_unique); invariant: pooled Stores have no names, no values, status 0, id = prefix "
